@@ -11,14 +11,14 @@ META = {
             "effective state and failed-in-pass flag, firstPass, numTF, happy-eyeballs timer, health listener, reported state) with the "
             "environment restricted to legal sub-channel behaviour; TLC checks ReadyMeansReady, OthersShutdown, Order (connection "
             "requests of a pass strictly follow the processed list), StickyTF, AllFailed and that the processed list is Interleave(DeDup) "
-            "for all input sequences up to 7 events (negative controls: the code's forwarding of CONNECTING from a new sub-connection "
+            "for all input sequences up to 6 events (thorough: 8, 4 addresses of 3 families, health listener on and off) (negative controls: the code's forwarding of CONNECTING from a new sub-connection "
             "while in sticky TF, and a missing shutdown of the other sub-connections on READY). The reference pre-processing is checked "
             "against the declarative statement (permutation of the de-duplicated input preserving per-family order) on all lists of <= 4 "
             "addresses. Every transition of a bounded scope and seeded random long input sequences (resolver updates with duplicates and "
             "3 families as Addresses or Endpoints, empty lists, resolver errors, ExitIdle by call or by idle picker, timer expiry through "
             "the internal.TimeAfterFunc seam, sub-channel and health state changes) are executed on the real policy with a recording "
             "ClientConn; TLC validates every step. deDupAddresses/interleaveAddresses are compared with the TLA+ reference on all lists "
-            "of <= 4 (thorough: 5) addresses over 7 addresses of 3 families.",
+            "of <= 4 addresses over 7 addresses of 3 families (thorough: <= 5 addresses over 5 addresses of 3 families).",
     "note": "Shuffling is off (it is a random permutation applied before the pre-processing). CONNECTING->IDLE of a sub-channel is "
             "treated like the code documents it (a connection that was established and lost), it ends sticky TF; an empty address list "
             "also ends it (no address is left that failed). The order clause is judged against the specification's happy-eyeballs "
@@ -90,13 +90,13 @@ def run(ctx):
     # reference-oracle sub-check of the address pre-processing: every list of <= n addresses
     ppath = os.path.join(ctx.run, "trace-pre.ndjson")
     n = ctx.pick(4, 5)
-    ctx.driver(binary, "TestVerifC34Preprocess", {"VERIF_OUT": ppath, "VERIF_N": n})
+    ctx.driver(binary, "TestVerifC34Preprocess", {"VERIF_OUT": ppath, "VERIF_N": n, "VERIF_UNIVERSE": ctx.pick(7, 5)})
     npre = sum(1 for _ in open(ppath)) - 1
     ctx.count({"preprocess_lists_up_to": n}, n=npre)
     # behaviours from the state graph (of the specification that follows the code, Quirk = 1)
     behs = []
     gens = (("PickFirstGen.cfg", "ListsA", ctx.pick(600, 8000)),) if ctx.quick() else \
-        (("PickFirstGen.cfg", "ListsA", 8000), ("PickFirstGenH.cfg", "ListsB", 6000))
+        (("PickFirstGen.cfg", "ListsA", 4000), ("PickFirstGenT.cfg", "ListsC", 2500))
     for cfg, lists, lim in gens:
         g = ctx.dump_graph("PickFirstMC", cfg)
         bs = ctx.edge_cover(g, step_of, limit=lim)
@@ -113,7 +113,7 @@ def run(ctx):
         ctx.count(b, nontrivial=len(b) >= 2)
     ctx.sample(behs[len(behs) // 2])
     tpath2 = os.path.join(ctx.run, "trace-random.ndjson")
-    n = ctx.pick(150, 4000)
+    n = ctx.pick(150, 1500)
     ctx.driver(binary, "TestVerifC34Random", {"VERIF_OUT": tpath2, "VERIF_N": n})
     ctx.count({"random_runs": n, "seed": ctx.seed}, n=n)
     # one validation over: pre-processing oracle, replayed TLC behaviours, random sequences
